@@ -1263,13 +1263,6 @@ Proof.
   intros Htc Hcc. apply (D cur' rest Hst1); [rewrite (is_test_def cur cur' Hd); exact Htc|exact Hcc].
 Qed.
 
-Lemma liveE_weaken_none : forall st e, LiveE st e -> LiveE st None.
-Proof.
-  intros st e (A1 & A2 & A3 & A4 & A5 & A6 & A7). unfold LiveE.
-  split; [exact A1|]. split; [exact A2|]. split; [exact A3|]. split; [unfold exp_ind in *; cbn; lia|].
-  split; [exact A5|].
-Abort.
-
 Lemma m_stringlist_post : forall st e t,
   LiveE st e -> p_expected st = None -> p_cstate st = CStrList -> passes e (t_kind t) ->
   hpost st e t (m_stringlist st t).
@@ -1321,4 +1314,244 @@ Proof.
     split; [change (exp_ind (Some [TComma; TRightBracket])) with 0; lia|]. split; [rewrite Hcs in L5; exact L5|].
     split; [|discriminate].
     intros _. exists b'. split; [exact Hb|]. intros _. apply Hn. apply (passes_not_lcb e TString Hp). discriminate.
+Qed.
+
+Lemma twf_lparen_vartest : forall d, twf d = true -> is_ctest d = true ->
+  exp_has TLeftParen (d_expected_first d) = true -> d_variable_args_nb d = true.
+Proof.
+  intros d H Hc He. pose proof H as H0. unfold twf in H. destruct (has_test_slot d) eqn:Hts.
+  - destruct (twf_test_slot d H0 Hts) as (a & Ha & _ & _ & [(Ht1 & Hnv)|(_ & Hv & _)]); [|exact Hv].
+    exfalso. rewrite Ha in H. unfold is_ctest in Hc. destruct (d_type d) eqn:Et; try discriminate.
+    repeat match goal with K : (_ && _)%bool = true |- _ => apply andb_true_iff in K; destruct K end.
+    match goal with K : (_ || _)%bool = true |- _ => apply orb_true_iff in K; destruct K as [K|K] end.
+    + repeat match goal with K : (_ && _)%bool = true |- _ => apply andb_true_iff in K; destruct K end.
+      destruct (d_expected_first d) as [[|k [|k2 l]]|]; cbn in *; try discriminate.
+      destruct k; cbn in *; discriminate.
+    + repeat match goal with K : (_ && _)%bool = true |- _ => apply andb_true_iff in K; destruct K end.
+      rewrite Hnv in *. discriminate.
+  - exfalso. repeat match goal with K : (_ && _)%bool = true |- _ => apply andb_true_iff in K; destruct K end.
+    rewrite He in *. discriminate.
+Qed.
+
+Lemma twf_test_expected : forall d, twf d = true -> is_ctest d = true -> has_test_slot d = true ->
+  d_expected_first d <> None.
+Proof.
+  intros d H Hc Hts. pose proof H as H0. unfold twf in H. rewrite Hts in H.
+  destruct (twf_test_slot d H0 Hts) as (a & Ha & _). rewrite Ha in H.
+  unfold is_ctest in Hc. destruct (d_type d) eqn:Et; try discriminate.
+  repeat match goal with K : (_ && _)%bool = true |- _ => apply andb_true_iff in K; destruct K end.
+  match goal with K : (_ || _)%bool = true |- _ => apply orb_true_iff in K; destruct K as [K|K] end;
+    repeat match goal with K : (_ && _)%bool = true |- _ => apply andb_true_iff in K; destruct K end;
+    destruct (d_expected_first d); [discriminate|discriminate|discriminate|discriminate].
+Qed.
+
+Lemma tl_variable : forall d a, twf d = true -> d_args d = [a] -> is_tl a = true -> d_variable_args_nb d = true.
+Proof.
+  intros d a H Ha Htl.
+  assert (Hts : has_test_slot d = true) by (apply (slot_in_has_test d a); [rewrite Ha; left; reflexivity|apply is_tl_slot_test; exact Htl]).
+  destruct (twf_test_slot d H Hts) as (a0 & Ha0 & _ & _ & [(Ht1 & _)|(_ & Hv & _)]); [|exact Hv].
+  rewrite Ha in Ha0. inversion Ha0; subst a0. unfold is_tl, is_t1 in *.
+  destruct (a_type a) as [|[] [|y l]]; discriminate.
+Qed.
+
+Lemma n_vartest_nontest_top : forall cur rest,
+  stack_ok (cur :: rest) -> is_test cur = false -> n_vartest (cur :: rest) = 0.
+Proof.
+  intros cur rest Hs Ht. apply n_vartest_nontest. intros f [<-|Hin]; [exact Ht|].
+  apply (nontest_below rest cur Hs Ht f Hin).
+Qed.
+
+Lemma passes_none_or : forall e k, passes e k -> exp_has k e = false -> e = None.
+Proof. intros [l|] k Hp He; [cbn in Hp, He; congruence|reflexivity]. Qed.
+
+(* the scalar argument tokens *)
+Lemma scalar_post : forall st e t ty,
+  LiveE st e -> p_expected st = None -> p_cstate st = CArgs ->
+  (ty = TyString \/ ty = TyNumber \/ ty = TyTag) ->
+  (t_kind t <> TLeftCBracket /\ t_kind t <> TSemicolon) ->
+  forall cur rest, p_stack st = cur :: rest ->
+  hpost st e t
+    (match lift_cna (check_next_arg cur ty (VStr (t_val t)) true true (p_loaded st)) st MTrue with
+     | MTrue st1 => check_completion st1 false
+     | MRewind st1 => match check_completion st1 false with MTrue st2 => MRewind st2 | r => r end
+     | r => r
+     end).
+Proof.
+  intros st e t ty HL He Hcs Hty (Hk1 & Hk2) cur rest Es.
+  pose proof HL as (L1 & _). rewrite Es in L1. pose proof (stack_ok_top _ _ L1) as Hfc.
+  assert (Hsh : shape_ok ty (VStr (t_val t))) by (destruct Hty as [->|[->| ->]]; exact I).
+  assert (Hnt : ty <> TyTest) by (destruct Hty as [->|[->| ->]]; discriminate).
+  pose proof (cna_post_holds cur ty (VStr (t_val t)) true true (p_loaded st) Hfc Hsh) as P.
+  unfold lift_cna.
+  destruct (check_next_arg cur ty (VStr (t_val t)) true true (p_loaded st)) as [cur' slot| | |] eqn:E;
+    try exact I; try contradiction.
+  - pose proof (value_taken_live st e cur rest ty (VStr (t_val t)) cur' slot false HL He Es Hcs Hsh Hnt E (fun _ => I)) as V.
+    destruct (check_completion (replace_top cur' st) false); try contradiction. cbn. right. apply V.
+  - cbn. intros [H|H]; contradiction.
+Qed.
+
+Lemma m_arguments_post : forall T st e t,
+  twf_tables T = true ->
+  LiveE st e -> p_expected st = None -> p_cstate st = CArgs -> passes e (t_kind t) ->
+  hpost st e t (m_arguments T st t).
+Proof.
+  intros T st e t HT HL He Hcs Hp. pose proof HL as (L1 & L2 & L3 & L4 & L5 & L6 & L7).
+  destruct (p_stack st) as [|cur rest] eqn:Es; [exfalso; apply L2; [rewrite Hcs; discriminate|reflexivity]|].
+  pose proof (stack_ok_top _ _ L1) as Hfc.
+  unfold m_arguments.
+  destruct (t_kind t) eqn:Ek.
+  - (* '[' *)
+    unfold m_argument. rewrite Es, Ek.
+    set (st1 := with_expected (Some [TString]) (with_curlist [] (with_cstate CStrList (with_brackets (BRBracket :: p_brackets st) st)))).
+    assert (HL1 : Live st1).
+    { unfold Live, LiveE, st1. pcbn. rewrite Es.
+      split; [exact L1|]. split; [intros _; discriminate|]. split; [discriminate|].
+      split; [rewrite n_paren_cons; change (exp_ind (Some [TString])) with 0; pose proof (exp_ind_le e); lia|].
+      split; [rewrite n_cbr_cons; cbn [cs_ind]; apply n_nontest_pos; [exact L1|discriminate]|].
+      split; [|discriminate].
+      intros _. exists (p_brackets st). split; [reflexivity|]. intros _. rewrite Hcs in L5. cbn [cs_ind] in L5. exact L5. }
+    pose proof (cc_live st1 false HL1) as C.
+    assert (C' : match check_completion st1 false with MTrue st' => Live st' | _ => False end).
+    { assert (Hc1 : p_cstate st1 = CStrList) by reflexivity.
+      assert (X := C ltac:(rewrite Hc1; discriminate) ltac:(intros _; unfold st1; pcbn; discriminate) ltac:(discriminate)).
+      assert (Y := X ltac:(intros; unfold st1; pcbn; apply n_cbr_cons)).
+      destruct (check_completion st1 false); try contradiction. apply Y. }
+    destruct (check_completion st1 false); try contradiction. cbn. right. exact C'.
+  - (* ']' *)
+    unfold m_argument. rewrite Es, Ek. cbn. intros [H|H]; rewrite Ek in H; discriminate.
+  - (* '(' *)
+    cbn. destruct (exp_has TLeftParen e) eqn:Elp.
+    + right. unfold Live, LiveE. pcbn. rewrite Es, Hcs.
+      split; [exact L1|]. split; [intros _; discriminate|]. split; [discriminate|].
+      split; [rewrite n_paren_cons; change (exp_ind (Some [TIdentifier])) with 0; unfold exp_ind in L4; rewrite Elp in L4; lia|].
+      split; [rewrite n_cbr_cons; rewrite Hcs in L5; exact L5|]. split; [discriminate|]. intros _ H. discriminate.
+    + left. pose proof (passes_none_or e TLeftParen Hp Elp) as ->.
+      unfold Dead. pcbn. split; [exact Hcs|]. split; [reflexivity|].
+      exists cur, rest. split; [exact Es|]. split; [exact Hfc|]. apply (L7 Hcs eq_refl).
+  - (* ')' *)
+    destruct (pop_bracket st BRParen) as [st1|err] eqn:Epb; [|exact I].
+    destruct (pop_bracket_inl _ _ _ Epb) as (b & Hb & ->).
+    assert (Htc : is_test cur = true).
+    { destruct (is_test cur) eqn:Et; auto. exfalso.
+      rewrite (n_vartest_nontest_top cur rest L1 Et), Hb, n_paren_cons in L4. lia. }
+    pose proof (up_test (with_brackets b st) cur rest Es L1 Htc) as U.
+    destruct (up (with_brackets b st)) as [st'| | | |]; try contradiction; [|exact I].
+    destruct U as (U1 & U2 & top' & r' & U3 & U4 & U5 & U6 & U7).
+    cbn. right. unfold Live, LiveE. rewrite U1, U2, U3. pcbn. rewrite Hcs.
+    split; [exact U4|]. split; [intros _; discriminate|]. split; [discriminate|].
+    assert (Hei : exp_ind (p_expected st') = 0).
+    { destruct U7 as [(-> & _)|(-> & _)]; [pcbn; rewrite He; reflexivity|reflexivity]. }
+    split.
+    { rewrite Hei. rewrite Hb, n_paren_cons in L4. destruct (is_vartest cur); lia. }
+    split; [rewrite U6; rewrite Hb, n_cbr_cons, Hcs in L5; exact L5|]. split; [discriminate|].
+    intros _ Hn. destruct U7 as [(_ & A & B)|(U7 & _)]; [cbn; right; exact B|rewrite U7 in Hn; discriminate].
+  - (* '{' *)
+    unfold m_argument. rewrite Es, Ek.
+    destruct (d_non_deterministic_args (f_def cur)) eqn:End.
+    2:{ cbn. intros _. split; [exact HL|]. split; [exact He|reflexivity]. }
+    assert (Htw : twf (f_def cur) = true) by apply Hfc.
+    destruct (twf_nondet _ Htw End) as (Hre & Hct & Hnts).
+    destruct (reassign_arguments cur) as [cur'|] eqn:Era.
+    2:{ unfold reassign_arguments in Era. rewrite Hre in Era.
+        repeat match type of Era with context [match ?x with _ => _ end] => destruct x end; discriminate. }
+    destruct (fi_reassign cur cur' Hfc Hnts Era) as (Hf' & Hd & Ha & _).
+    assert (HLr : forall e0, (e0 = e \/ e0 = None) -> LiveE (replace_top cur' st) e0).
+    { intros e0 He0.
+      assert (HL0 : LiveE st e0).
+      { destruct He0 as [->| ->]; [exact HL|].
+        unfold LiveE. rewrite Es. split; [exact L1|]. split; [exact L2|]. split; [exact L3|].
+        split; [change (exp_ind None) with 0; lia|]. split; [exact L5|].
+        split; [intro Hc; rewrite Hcs in Hc; discriminate|].
+        intros _ _. cbn. left. exact Hnts. }
+      apply (liveE_replace_top st e0 cur rest cur' HL0 Es Hf' Hd Ha).
+      intros _ _. left. rewrite Hd. exact Hnts. }
+    assert (Hex : p_expected (replace_top cur' st) = None) by (unfold replace_top; rewrite Es; exact He).
+    assert (Hcr : p_cstate (replace_top cur' st) = CArgs) by (unfold replace_top; rewrite Es; exact Hcs).
+    destruct (negb (iscomplete cur' None)) eqn:Enc.
+    + cbn. intros _. split; [apply HLr; left; reflexivity|]. split; [exact Hex|]. rewrite Hcr, Hcs. reflexivity.
+    + (* the token is delivered again after the command has been left *)
+      assert (HLive : Live (replace_top cur' st)) by (unfold Live; rewrite Hex; apply HLr; right; reflexivity).
+      pose proof (cc_live (replace_top cur' st) false HLive) as C.
+      rewrite Hcr in C.
+      assert (X := C ltac:(discriminate) ltac:(discriminate) ltac:(discriminate)).
+      assert (Y : match check_completion (replace_top cur' st) false with MTrue st' => Live st' | _ => False end).
+      { assert (Z := X ltac:(intros c r Ec Hnt; exfalso; unfold replace_top in Ec; rewrite Es in Ec; pcbn_in Ec;
+                                inversion Ec; subst c; unfold is_test in Hnt; rewrite Hd in Hnt;
+                                unfold is_ctest in Hct; destruct (d_type (f_def cur)); discriminate)).
+        destruct (check_completion (replace_top cur' st) false); try contradiction. apply Z. }
+      destruct (check_completion (replace_top cur' st) false); try contradiction. cbn. right. exact Y.
+  - (* '}' *) unfold m_argument. rewrite Es, Ek. cbn. intros [H|H]; rewrite Ek in H; discriminate.
+  - (* ';' *) unfold m_argument. rewrite Es, Ek. cbn. intros _. split; [exact HL|]. split; [exact He|reflexivity].
+  - (* ',' *)
+    cbn. right. unfold Live, LiveE. pcbn. rewrite Es, Hcs.
+    split; [exact L1|]. split; [intros _; discriminate|]. split; [discriminate|].
+    split; [change (exp_ind (Some [TIdentifier])) with 0; pose proof (exp_ind_le e); lia|].
+    split; [rewrite Hcs in L5; exact L5|]. split; [discriminate|]. intros _ H. discriminate.
+  - (* hash comment: never reaches the handlers, but harmless *)
+    unfold m_argument. rewrite Es, Ek. cbn. intros [H|H]; rewrite Ek in H; discriminate.
+  - unfold m_argument. rewrite Es, Ek. cbn. intros [H|H]; rewrite Ek in H; discriminate.
+  - (* multi-line string *)
+    unfold m_argument. rewrite Es, Ek.
+    destruct (negb (utf8_valid (t_val t))); [exact I|].
+    apply (scalar_post st e t TyString HL He Hcs (or_introl eq_refl) ltac:(rewrite Ek; split; discriminate) cur rest Es).
+  - (* string *)
+    unfold m_argument. rewrite Es, Ek.
+    destruct (negb (utf8_valid (t_val t))); [exact I|].
+    apply (scalar_post st e t TyString HL He Hcs (or_introl eq_refl) ltac:(rewrite Ek; split; discriminate) cur rest Es).
+  - (* identifier: a test *)
+    rewrite Es.
+    destruct (get_command_instance T (p_loaded st) (t_val t)) as [d|err] eqn:Eg; [|exact I].
+    pose proof (gci_twf _ _ _ _ HT Eg) as Htd.
+    destruct (d_type d) eqn:Edt; try exact I.
+    assert (Hctd : is_ctest d = true) by (unfold is_ctest; rewrite Edt; reflexivity).
+    pose proof (cna_post_holds cur TyTest placeholder true true (p_loaded st) Hfc I) as P.
+    destruct (check_next_arg cur TyTest placeholder true true (p_loaded st)) as [cur' slot| | |] eqn:E;
+      try exact I; try contradiction.
+    2:{ cbn. intros [H|H]; rewrite Ek in H; discriminate. }
+    destruct P as (Hd & Ha & _ & Hf' & P). destruct (P eq_refl) as (ca & -> & Hargs & Hkind). clear P.
+    set (at_ := match a_type ca with [TyTestList] => AtTestList (a_name ca) | _ => AtTest (a_name ca) end).
+    set (N := new_frame d at_).
+    assert (Htw : twf (f_def cur) = true) by apply Hfc.
+    assert (Hslot : slot_is_test ca = true).
+    { destruct Hkind as [(Hk & _)|(Hk & _)]; [apply is_tl_slot_test; exact Hk|].
+      unfold is_t1 in Hk. unfold slot_is_test. destruct (a_type ca) as [|[] [|y l]]; try discriminate. reflexivity. }
+    assert (Hts : has_test_slot (f_def cur) = true) by (apply (slot_in_has_test _ ca); [rewrite Hargs; left; reflexivity|exact Hslot]).
+    destruct (twf_test_slot_kind _ Htw Hts) as (Hnd & _ & _).
+    set (st2 := with_stack (N :: p_stack (with_expected (d_expected_first d) (replace_top cur' st)))
+                           (with_expected (d_expected_first d) (replace_top cur' st))).
+    assert (Hst2 : p_stack st2 = N :: cur' :: rest) by (unfold st2, replace_top; rewrite Es; reflexivity).
+    assert (Htn : is_test N = true) by (unfold is_test, N; cbn; rewrite Edt; reflexivity).
+    assert (Hok : stack_ok (N :: cur' :: rest)).
+    { cbn [stack_ok]. split; [apply fi_new_frame; exact Htd|]. split.
+      - unfold adj_ok. rewrite Htn, Hd. split; [exact Hnd|]. split; [exact Hts|].
+        destruct Hkind as [(Hk & ->)|(Hk & Hc)]; [right; apply (tl_variable _ ca Htw Hargs Hk)|left; exact Hc].
+      - apply (stack_ok_replace cur); auto. }
+    assert (HL2 : Live st2).
+    { unfold Live, LiveE. rewrite Hst2. unfold st2, replace_top. rewrite Es. pcbn. rewrite Hcs.
+      split; [exact Hok|]. split; [intros _; discriminate|]. split; [discriminate|].
+      split.
+      { rewrite n_vartest_cons, n_vartest_cons, (is_vartest_def cur cur' Hd), <- n_vartest_cons.
+        unfold exp_ind at 1. destruct (exp_has TLeftParen (d_expected_first d)) eqn:Elp.
+        - unfold is_vartest. rewrite Htn. unfold N. cbn [f_def new_frame].
+          rewrite (twf_lparen_vartest d Htd Hctd Elp). cbn [andb]. pose proof (exp_ind_le e). lia.
+        - lia. }
+      split; [rewrite !n_nontest_cons, Htn, (is_test_def cur cur' Hd), <- n_nontest_cons; rewrite Hcs in L5; exact L5|].
+      split; [discriminate|].
+      intros _ Hn. cbn. left. unfold N. cbn [f_def new_frame].
+      destruct (has_test_slot d) eqn:Htsd; auto. exfalso. apply (twf_test_expected d Htd Hctd Htsd Hn). }
+    pose proof (cc_live st2 false HL2) as C.
+    assert (Hc2 : p_cstate st2 = CArgs) by (unfold st2, replace_top; rewrite Es; exact Hcs).
+    rewrite Hc2 in C.
+    assert (X := C ltac:(discriminate) ltac:(discriminate) ltac:(discriminate)).
+    assert (Y : match check_completion st2 false with MTrue st' => Live st' | _ => False end).
+    { assert (Z := X ltac:(intros c r Ec Hnt; exfalso; rewrite Hst2 in Ec; inversion Ec; subst c; congruence)).
+      destruct (check_completion st2 false); try contradiction. apply Z. }
+    fold at_. fold N. fold st2.
+    destruct (check_completion st2 false); try contradiction. cbn. right. exact Y.
+  - (* tag *)
+    unfold m_argument. rewrite Es, Ek.
+    apply (scalar_post st e t TyTag HL He Hcs (or_intror (or_intror eq_refl)) ltac:(rewrite Ek; split; discriminate) cur rest Es).
+  - (* number *)
+    unfold m_argument. rewrite Es, Ek.
+    apply (scalar_post st e t TyNumber HL He Hcs (or_intror (or_introl eq_refl)) ltac:(rewrite Ek; split; discriminate) cur rest Es).
 Qed.
